@@ -678,6 +678,33 @@ def judge_c10(case, side, res):
     return v
 
 
+# ---------------------------------------------------------------- C06: binding analysis of the real output
+import scope as scope_mod
+
+
+def gen_scope(seed, tier, start, quick=450, thorough=10000):
+    cs = gen_cases.gen_scope_cases(seed, quick if tier == "quick" else thorough, start)
+    return cs + gen_modules(seed, tier, start + len(cs), 100, 2000)
+
+
+def judge_c06(case, side, res):
+    v = make_judge(None, None, whole=True)(case, side, res)
+    if case.get("stream") != "scope" or side.get("status") != "ok" or "output" not in side:
+        v["relevant"] = False
+        return v
+    opts = side.get("options") or {}
+    pragma = [opts["pragma"]] if opts.get("pragma") else []
+    errors, known = scope_mod.analyse(side["output"], side.get("input"), side.get("unres"), pragma)
+    if errors:
+        v["ok"] = False
+        v["oracle_why"] = "binding analysis of the real output: " + ", ".join("%s `%s`" % e for e in sorted(set(errors))[:6])
+    elif known:
+        v["ok"] = False
+        v["known"] = known[0][0]
+        v["oracle_why"] = "%s `%s`" % known[0]
+    return v
+
+
 SITE_TRUST = ["Spec/Site.v + Spec/SiteCheck.v are this check's independent reading of what a JSX element denotes (type, contributions to the props in order, directives, children / slots); it is compared with the REAL output of probe modules `const __site = <element>`",
               "that the compared shapes evaluate as intended under JavaScript and Vue (object literal order, mergeProps, withDirectives, slot invocation) is argued in DESIGN.md, not proved"]
 
@@ -687,6 +714,10 @@ PROPS = {
     "C04": {"gen": gen_sites, "judge": make_site_judge("C04"), "trusted": SITE_TRUST, "assumptions": []},
     "C05": {"gen": gen_sites, "judge": make_site_judge("C05"), "trusted": SITE_TRUST, "assumptions": []},
     "C11": {"gen": gen_sites, "judge": make_site_judge("C11"), "trusted": SITE_TRUST, "assumptions": []},
+    "C06": {"gen": gen_scope, "judge": judge_c06,
+            "trusted": ["tools/scope.py is this check's binding analysis of the visitor's raw output: identifier identity = name + syntax context as SWC's resolver and private_ident! leave it; block / function / class / catch scoping, hoisting of functions and imports, sequential initialisation of let/const, closures may see later declarations",
+                        "name capture after printing is SWC's hygiene pass, outside the transform"],
+            "assumptions": ["type-only positions are skipped; `var` hoisting out of nested blocks is not modelled (user code only)"]},
     "C10": {"gen": gen_ctx, "judge": judge_c10,
             "trusted": ["Spec/Context.v names identifiers by what they denote (vue import -> imported name, generated temporary -> order of first occurrence, other identifiers -> name + order of their scope); two lowerings equal under this naming evaluate alike provided C06 holds for the temporaries",
                         "the prefix / suffix statements never bind a name the probe references (generator invariant)"],
